@@ -554,13 +554,50 @@ func runC06(c *Ctx) {
 
 // edgeRepliesConst: from start every path returns nfsError*(reply, want) before any backend call.
 func edgeRepliesConst(p *Prog, start *ssa.BasicBlock, want int64) (bool, string) {
-	seen := map[*ssa.BasicBlock]bool{}
-	var walk func(b *ssa.BasicBlock) (bool, string)
-	walk = func(b *ssa.BasicBlock) (bool, string) {
-		if seen[b] {
+	seen := map[edge]bool{}
+	var path []*ssa.BasicBlock
+	// the value a phi has on the path walked so far (results of an inlined helper are merged at a join)
+	resolve := func(v ssa.Value) ssa.Value {
+		for n := 0; n < 8; n++ {
+			phi, ok := v.(*ssa.Phi)
+			if !ok {
+				break
+			}
+			at := -1
+			for i := len(path) - 1; i > 0; i-- {
+				if path[i] == phi.Block() {
+					at = i
+					break
+				}
+			}
+			if at < 1 {
+				break
+			}
+			idx := -1
+			for i, pr := range phi.Block().Preds {
+				if pr == path[at-1] {
+					idx = i
+				}
+			}
+			if idx < 0 || idx >= len(phi.Edges) {
+				break
+			}
+			v = phi.Edges[idx]
+		}
+		return v
+	}
+	var walkEnv func(b *ssa.BasicBlock, env phiEnv) (bool, string)
+	walkEnv = func(b *ssa.BasicBlock, env phiEnv) (bool, string) {
+		var pred *ssa.BasicBlock
+		if len(path) > 0 {
+			pred = path[len(path)-1]
+		}
+		if seen[edge{pred, b}] {
 			return true, ""
 		}
-		seen[b] = true
+		seen[edge{pred, b}] = true
+		path = append(path, b)
+		defer func() { path = path[:len(path)-1] }()
 		for _, in := range b.Instrs {
 			if ci, ok := in.(ssa.CallInstruction); ok && asBackendCall(ci) != nil {
 				return false, "backend call " + shortCallee(ci) + " at " + p.instrPos(in) + " on the handle-not-found edge"
@@ -569,14 +606,16 @@ func edgeRepliesConst(p *Prog, start *ssa.BasicBlock, want int64) (bool, string)
 				if len(r.Results) == 0 {
 					return false, "bare return on the handle-not-found edge"
 				}
-				call, ok := r.Results[0].(*ssa.Call)
+				call, ok := resolve(r.Results[0]).(*ssa.Call)
 				if !ok {
-					// helper style: (nil, 0) after nfsErrorReply(reply, STALE) in the same block
-					for _, in2 := range b.Instrs {
-						if c2, ok := in2.(*ssa.Call); ok {
-							if f := staticCallee(c2); f != nil && strings.HasPrefix(f.Name(), "nfsError") {
-								if k, isC := constInt(c2.Call.Args[1]); isC && k == want {
-									return true, ""
+					// helper style: (nil, 0) after nfsErrorReply(reply, STALE) on the path
+					for _, pb := range path {
+						for _, in2 := range pb.Instrs {
+							if c2, ok := in2.(*ssa.Call); ok {
+								if f := staticCallee(c2); f != nil && strings.HasPrefix(f.Name(), "nfsError") && len(c2.Call.Args) > 1 {
+									if k, isC := constInt(c2.Call.Args[1]); isC && k == want {
+										return true, ""
+									}
 								}
 							}
 						}
@@ -594,12 +633,26 @@ func edgeRepliesConst(p *Prog, start *ssa.BasicBlock, want int64) (bool, string)
 				return true, ""
 			}
 		}
-		for _, s := range b.Succs {
-			if ok, why := walk(s); !ok {
+		succs := feasibleSuccs(b, env)
+		if ifi := blockIf(b); ifi != nil && len(succs) == 2 {
+			// a nil test on a value merged at a join: decided by the value it has on this path
+			if bo, ok := ifi.Cond.(*ssa.BinOp); ok && (bo.Op == token.EQL || bo.Op == token.NEQ) {
+				x, y := resolve(bo.X), resolve(bo.Y)
+				if isNilConst(x) && isNilConst(y) {
+					if bo.Op == token.EQL {
+						succs = succs[:1]
+					} else {
+						succs = succs[1:2]
+					}
+				}
+			}
+		}
+		for _, s := range succs {
+			if ok, why := walkEnv(s, env.enter(b, s)); !ok {
 				return false, why
 			}
 		}
 		return true, ""
 	}
-	return walk(start)
+	return walkEnv(start, phiEnv{})
 }
